@@ -81,6 +81,8 @@ CLAIM = {
 
 BU = "bundlers.py"
 MUTANTS = [
+    ("counter set from the detectors' index when several are collected (seed C45-a)", [("bundlers.py", "        else:\n            # Since there are no events or event_pages incrementing the sequence counter, we do it ourselves.\n            self._sequence_counters[stream_name] += indices_difference\n\n    async def backstop_collect", "        elif min_index is None:\n            self._sequence_counters[stream_name] += indices_difference\n        else:\n            self._sequence_counters[stream_name] = min_index + 1\n\n    async def backstop_collect")], "C45.D1"),
+    ("multi-detector branch forgets the bump", [("bundlers.py", "        else:\n            # Since there are no events or event_pages incrementing the sequence counter, we do it ourselves.\n            self._sequence_counters[stream_name] += indices_difference\n\n    async def backstop_collect", "        else:\n            pass\n\n    async def backstop_collect")], "C45.D1"),
     ("first detector's index instead of the minimum", [(BU, "            min_index = min(await asyncio.gather(*coros))", "            min_index = (await asyncio.gather(*coros))[0]")], "C45.D2"),
     ("no index passed down", [(BU, "                obj,\n                index=min_index,\n            )", "                obj,\n            )")], "C45.D2"),
     ("width mismatch tolerated",
